@@ -234,7 +234,8 @@ outer:
 	return 0
 }
 
-func RelInt(a, b int) bool     { return uf("RelInt", uint64(a), uint64(b)) != 0 }
+// RelInt is an arbitrary strict weak order, represented by an uninterpreted rank function.
+func RelInt(a, b int) bool { return int64(uf("RankInt", uint64(a))) < int64(uf("RankInt", uint64(b))) }
 func FnInt(a int) int          { return int(uf("FnInt", uint64(a))) }
 func PredInt(a int) bool       { return uf("PredInt", uint64(a)) != 0 }
 func Pred2Int(a, b int) bool   { return uf("Pred2Int", uint64(a), uint64(b)) != 0 }
